@@ -45,7 +45,7 @@ mutant('C19', 'banner slice too short', LOG, "line[:8] == 'LAMMPS ('", "line[:7]
 mutant('C19', 'month table wrong', LOG, "'Sep': 9, 'Oct': 10", "'Sep': 9, 'Oct': 9", 'TRIGGERS')
 mutant('C19', 'version overwritten by later banner', LOG, " and self.lammps_version is None", "", 'APPEND')
 mutant('C19', 'append=False keeps version', LOG, "            self.__simulations = []\n            self.__lammps_version = None\n", "            self.__simulations = []\n", 'APPEND')
-mutant('C19', 'performance offset after append', LOG, 'self.simulations[i+j].performance', 'self.simulations[i].performance', 'APPEND')
+mutant('C19', 'performance offset after append', LOG, 'self.simulations[performance_runs[i]+j].performance', 'self.simulations[performance_runs[i]].performance', 'APPEND')
 mutant('C19', 'flatten first keeps duplicates', LOG, 'thermo[thermo.Step > merged_df.Step.max()]', 'thermo[thermo.Step >= merged_df.Step.max()]', 'FLATTEN')
 mutant('C19', 'flatten last keeps duplicates', LOG, 'merged_df[merged_df.Step < thermo.Step.min()]', 'merged_df[merged_df.Step <= thermo.Step.min()]', 'FLATTEN')
 mutant('C19', 'flatten last uses max', LOG, 'merged_df[merged_df.Step < thermo.Step.min()]', 'merged_df[merged_df.Step < thermo.Step.max()]', 'FLATTEN')
@@ -652,3 +652,10 @@ benign('C10', 'model converts through the unit factor of None', 'atomman/unitcon
 mutant('C18', 'regress-50cdf3d pos_to_a12 takes the position as passed', 'atomman/defect/GammaSurface.py', "        pos = np.asarray(pos)\n\n        # Handle a1vect and a2vect", "        # Handle a1vect and a2vect", 'ARRAY-LIKE')
 mutant('C18', 'regress-50cdf3d pos_to_xy takes the position as passed', 'atomman/defect/GammaSurface.py', "        pos = np.asarray(pos)\n\n        # Handle xvect", "        # Handle xvect", 'ARRAY-LIKE')
 benign('C18', 'position converted only when it is not an array', 'atomman/defect/GammaSurface.py', "        pos = np.asarray(pos)\n\n        # Handle xvect", "        if not isinstance(pos, np.ndarray):\n            pos = np.array(pos, dtype=float)\n\n        # Handle xvect")
+
+# regressions of the fix: commits 652d0a9 (Log.read pairs timing tables with their runs) and 89eee59 (Log.flatten with runs without rows)
+mutant('C19', 'regress-652d0a9 every Nlocal line closes a timing table', 'atomman/lammps/Log.py', "                    if len(performance_headers) > len(performance_footers):\n                        performance_footers.append(i-1)\n                        performance_runs.append(len(thermo_headers) - 1)", "                    performance_footers.append(i-1)\n                    performance_runs.append(len(performance_footers) - 1)", 'READ')
+mutant('C19', 'regress-652d0a9 timing tables attached by their own count', 'atomman/lammps/Log.py', "self.simulations[performance_runs[i]+j].performance = performance", "self.simulations[i+j].performance = performance", 'READ')
+mutant('C19', 'regress-89eee59 a run without rows is merged like any other', 'atomman/lammps/Log.py', "            if thermo is None or len(thermo) == 0:\n                continue", "            if thermo is None:\n                continue", 'FLATTEN')
+mutant('C19', 'regress-89eee59 first compares with an empty table', 'atomman/lammps/Log.py', "                if len(merged_df) > 0:\n                    thermo = thermo[thermo.Step > merged_df.Step.max()]\n", "                thermo = thermo[thermo.Step > merged_df.Step.max()]\n", 'FLATTEN')
+benign('C19', 'runs without rows skipped by their shape', 'atomman/lammps/Log.py', "            if thermo is None or len(thermo) == 0:\n                continue", "            if thermo is None:\n                continue\n            if thermo.shape[0] == 0:\n                continue")
